@@ -168,8 +168,9 @@ theorem plain_qfree {val : List Char} (h : Plain val) : QFree val :=
 def leafChars (n op : String) (val : List Char) : List Char :=
   n.toList ++ ' ' :: (op.toList ++ ' ' :: '"' :: (val ++ ['"']))
 
-theorem leafText_toList (n op v : String) : (leafText n op v false).toList = leafChars n op v.toList := by
-  simp [leafText, leafChars, String.toList_append]
+theorem leafText_toList (n op v : String) (hv : ∀ c ∈ v.toList, c ≠ '"') :
+    (leafText n op v false).toList = leafChars n op v.toList := by
+  simp [leafText, leafChars, String.toList_append, quoteOf_dq hv]
 
 /-- what may follow a conjunction: the end of the text or a closing parenthesis -/
 def EndOk (rest : List Char) : Prop := rest = [] ∨ ∃ r, rest = ')' :: r
